@@ -996,14 +996,9 @@ func (fx *fctx) execSwitch(st *State, s *ast.SwitchStmt) *State {
 	// isMainDispatch: switch over code.T inside evaluate gets per-case obligation names
 	labelCases := fx.isDispatchSwitch(s)
 	split := s == fx.tailSwitch && len(fx.jumps) >= 2 && fx.jumps[len(fx.jumps)-2].isLoop
-	conds := make([]*Term, len(clauses))
-	for i, c := range clauses {
-		cc := c.(*ast.CaseClause)
-		if cc.List == nil {
-			defaultClause = cc
-			defaultIdx = i
-			continue
-		}
+	// case expressions are evaluated in source order, each one in the state in which the earlier cases did not
+	// match (so `case len(xs) == 0: ...; case xs[0] == "":` checks the index under len(xs) != 0)
+	evalCond := func(cc *ast.CaseClause) *Term {
 		var alts []*Term
 		for _, x := range cc.List {
 			if tag != nil {
@@ -1013,7 +1008,13 @@ func (fx *fctx) execSwitch(st *State, s *ast.SwitchStmt) *State {
 				alts = append(alts, fx.evalBool(noneMatched, x))
 			}
 		}
-		conds[i] = ts.Or(alts...)
+		return ts.Or(alts...)
+	}
+	for i, c := range clauses {
+		if cc := c.(*ast.CaseClause); cc.List == nil {
+			defaultClause = cc
+			defaultIdx = i
+		}
 	}
 	runBody := func(i int, cc *ast.CaseClause, entry *State) {
 		states := []*State{entry}
@@ -1061,9 +1062,10 @@ func (fx *fctx) execSwitch(st *State, s *ast.SwitchStmt) *State {
 			}
 			continue
 		}
+		cond := evalCond(cc)
 		entry := noneMatched.clone()
-		entry.branch(conds[i])
-		noneMatched.branch(ts.Not(conds[i]))
+		entry.branch(cond)
+		noneMatched.branch(ts.Not(cond))
 		runBody(i, cc, entry)
 	}
 	if defaultClause != nil {
